@@ -1,7 +1,10 @@
 """C14 value generation on top of schema_values.Gen: a mode in which EVERY string-valued position (string arguments and
 results, structure fields, list / map elements and keys, station URLs, variant strings, strings inside anydata) holds
 non-ASCII content — 2-, 3- and 4-byte UTF-8 sequences (astral characters included), at the start / end / alone, and
-strings whose byte length crosses a boundary (255/256) that their character count does not."""
+strings whose byte length crosses a boundary (255/256) that their character count does not.
+
+A second mode (`big`) makes buffers, strings and top-level lists large enough that the RMC message carrying them is split
+into several PRUDP fragments (fragment size 1300 by default, 962 in the 3ds / friends profiles)."""
 import schema_values as SV
 from schema_proto2lean import BASIC
 
@@ -29,6 +32,10 @@ NA_URLS = [
 ]
 
 
+# sizes around the shipped fragment sizes (962, 1300) and multiples of them, and well beyond
+BIG_SIZES = [900, 961, 962, 963, 1299, 1300, 1301, 1924, 2600, 3000, 3900, 5200, 9000]
+
+
 def is_non_ascii(s):
     return any(ord(c) > 127 for c in s)
 
@@ -37,6 +44,8 @@ class Gen14(SV.Gen):
     def __init__(self, env, rng):
         super().__init__(env, rng)
         self.nonascii = False
+        self.big = False
+        self.big_left = 0            # bytes of large content still to hand out in this value set
         self._stringy = {}
 
     # ---- does a type contain a string-valued position?
@@ -67,7 +76,21 @@ class Gen14(SV.Gen):
         s[r.choice([0, k - 1, r.randrange(k)])] = r.choice(NA_CHARS)      # at least one multi-byte character
         return "".join(s)
 
+    def start_big(self, budget=14000):
+        self.big, self.big_left = True, budget
+
     def gen(self, t, cfg, depth=0, required=False):
+        if self.big and self.big_left > 0:
+            n = t["name"]; r = self.rng
+            if n in ("buffer", "qbuffer"):
+                k = r.choice(BIG_SIZES); self.big_left -= k
+                return ("bytes", r.randbytes(k))
+            if n == "string" and r.random() < 0.7:
+                k = r.choice([1000, 1400, 2700]); self.big_left -= 2 * k
+                return ("str", "".join(r.choice(NA_ALPHABET if self.nonascii else "abcdefghij KLMNOP0123456789_-") for _ in range(k)))
+            if n == "list" and depth == 0 and r.random() < 0.8:
+                k = r.randint(24, 60); self.big_left -= 1500
+                return ("list", [self.gen(t["template"][0], cfg, depth + 1, True) for _ in range(k)])
         if self.nonascii:
             n = t["name"]
             if n == "string": return ("str", self.string())
